@@ -484,8 +484,9 @@ namespace occa {
       case primitiveType::uint32_ : return primitive(a.to<uint32_t>() == b.to<uint32_t>());
       case primitiveType::int64_  : return primitive(a.to<int64_t>()  == b.to<int64_t>());
       case primitiveType::uint64_ : return primitive(a.to<uint64_t>() == b.to<uint64_t>());
-      case primitiveType::float_  : return primitive(areBitwiseEqual(a.to<float>(), b.to<float>()));
-      case primitiveType::double_ : return primitive(areBitwiseEqual(a.to<double>(), b.to<double>()));
+      // Compare values, not bit patterns: [0.0 == -0.0] (<= and >= avoid -Wfloat-equal)
+      case primitiveType::float_  : return primitive((a.to<float>()  <= b.to<float>())  && (a.to<float>()  >= b.to<float>()));
+      case primitiveType::double_ : return primitive((a.to<double>() <= b.to<double>()) && (a.to<double>() >= b.to<double>()));
       default: ;
     }
     return primitive();
@@ -510,8 +511,8 @@ namespace occa {
       case primitiveType::uint32_ : return primitive(a.to<uint32_t>() != b.to<uint32_t>());
       case primitiveType::int64_  : return primitive(a.to<int64_t>()  != b.to<int64_t>());
       case primitiveType::uint64_ : return primitive(a.to<uint64_t>() != b.to<uint64_t>());
-      case primitiveType::float_  : return primitive(!areBitwiseEqual(a.to<float>(), b.to<float>()));
-      case primitiveType::double_ : return primitive(!areBitwiseEqual(a.to<double>(), b.to<double>()));
+      case primitiveType::float_  : return primitive(!((a.to<float>()  <= b.to<float>())  && (a.to<float>()  >= b.to<float>())));
+      case primitiveType::double_ : return primitive(!((a.to<double>() <= b.to<double>()) && (a.to<double>() >= b.to<double>())));
       default: ;
     }
     return primitive();
